@@ -12,7 +12,8 @@
 (* Events                                                                  *)
 (*   init    layer ("module" = stateroot.Module | "trie" = mpt.Trie with   *)
 (*           single Put/Delete | "chain" = core.Blockchain),               *)
-(*           mode ("latest" | "gc" | "gclatest")                           *)
+(*           mode ("latest" | "gc" | "gclatest" | "all" = archival, no     *)
+(*           counters: only what the stored roots give back is judged)    *)
 (*   block   h, committed (FALSE = computed but never committed), failed,   *)
 (*           root, ch (module / trie layer: the batch)                     *)
 (*   gc      g                                                             *)
@@ -32,6 +33,7 @@ EXTENDS TraceIO, FiniteSets, FiniteSetsExt, SequencesExt
 VARIABLES l,        \* next line
           layer,    \* "module" | "chain"
           gc,       \* the trie mode garbage-collects
+          arch,     \* archival mode: no reference counters, every height retained; only the read API is judged
           tbl,      \* the re-assembled table
           height,   \* latest committed height
           roots,    \* height -> root identifier
@@ -40,11 +42,11 @@ VARIABLES l,        \* next line
           dig,      \* height -> digest of the content read when the height was the latest (chain layer)
           occ,      \* occurrence counts of the latest trie after the previous event
           deadAt    \* node -> height at which it became unreferenced (last time)
-vars == <<l, layer, gc, tbl, height, roots, G, cont, dig, occ, deadAt>>
+vars == <<l, layer, gc, arch, tbl, height, roots, G, cont, dig, occ, deadAt>>
 
 M == INSTANCE MPTRef
 
-Init == /\ l = 1 /\ layer = "" /\ gc = FALSE /\ tbl = <<>> /\ height = 0 /\ roots = <<>> /\ G = 0
+Init == /\ l = 1 /\ layer = "" /\ gc = FALSE /\ arch = FALSE /\ tbl = <<>> /\ height = 0 /\ roots = <<>> /\ G = 0
         /\ cont = <<>> /\ dig = <<>> /\ occ = <<>> /\ deadAt = <<>>
 
 Entry(p) == [kids |-> p.kids, count |-> p.count, active |-> p.active, since |-> p.since, ok |-> p.ok]
@@ -101,24 +103,24 @@ Step ==
     /\ l' = l + 1
     /\ LET e == TLog[l] IN
        IF e.event = "init" THEN
-            /\ layer' = e.layer /\ gc' = (e.mode # "latest") /\ tbl' = <<>> /\ height' = 0
+            /\ layer' = e.layer /\ gc' = (e.mode # "latest") /\ arch' = (e.mode = "all") /\ tbl' = <<>> /\ height' = 0
             /\ roots' = (0 :> M!NoRoot) /\ G' = 0 /\ cont' = (0 :> <<>>) /\ dig' = <<>> /\ occ' = <<>> /\ deadAt' = <<>>
        ELSE
          LET commit == e.event = "block" /\ e.committed IN
-         /\ UNCHANGED <<layer, gc>>
+         /\ UNCHANGED <<layer, gc, arch>>
          /\ tbl'    = Apply(tbl, e.put, e.del)
          /\ height' = IF commit THEN e.h ELSE height
          /\ roots'  = IF commit THEN (e.h :> e.root) @@ roots ELSE roots
          /\ cont'   = IF commit /\ layer # "chain" THEN (e.h :> ApplyBatch(cont[height], e.ch)) @@ cont ELSE cont
          /\ G'      = IF e.event = "gc" /\ e.g > G THEN e.g ELSE G
-         /\ occ'    = M!Occ(tbl', roots'[height'])
+         /\ occ'    = IF arch THEN <<>> ELSE M!Occ(tbl', roots'[height'])
          /\ LET died == IF commit THEN DOMAIN occ \ DOMAIN occ' ELSE {}
             IN  deadAt' = [n \in DOMAIN deadAt \cup died |-> IF n \in died THEN height' ELSE deadAt[n]]
          /\ LET latestRd == {i \in DOMAIN e.reads : e.reads[i].h = height'}
             IN  dig' = IF layer = "chain" /\ commit /\ latestRd # {}
                          THEN (height' :> e.reads[CHOOSE i \in latestRd : TRUE].digest) @@ dig ELSE dig
-         /\ Report(l, TableChecks(tbl', occ', deadAt', roots', height', G', e.event = "gc")
-                      \cup Reads(e, cont', dig', M!Retained(gc, height', G'))
+         /\ Report(l, (IF arch THEN {} ELSE TableChecks(tbl', occ', deadAt', roots', height', G', e.event = "gc"))
+                      \cup Reads(e, cont', dig', IF arch THEN 0..height' ELSE M!Retained(gc, height', G'))
                       \cup (IF e.event = "block" THEN NameIf(~e.failed, "ApplyFailed") ELSE {})
                       \cup (IF commit THEN NameIf(e.h = height + 1 \/ (e.h = 0 /\ height = 0), "HeightSkipped") ELSE {}),
                    [event |-> e.event, height |-> height', size |-> Cardinality(DOMAIN tbl')])
